@@ -102,6 +102,20 @@ def known_for(prop: str):
     return [k for k in data["known"] if k["property"] == prop]
 
 
+def match_known(cls: str, entries):
+    """the known-finding entry that lists this violation class, if any.
+
+    An entry names one class (``class``) or a family of classes that differ
+    only in the identifier class / name relation part (``class_regex``)."""
+    for k in entries:
+        if k.get("class") == cls:
+            return k
+        rx = k.get("class_regex")
+        if rx and re.fullmatch(rx, cls):
+            return k
+    return None
+
+
 # --------------------------------------------------------------------------
 # plan minimisation: generic structural shrinking of a JSON plan
 
